@@ -185,8 +185,11 @@ def featdiff_job(agg, job, tier, seed):
     prop = agg.prop
     quick = tier == "quick"
     if quick:
-        mid = SUBSETS[1 + (seed % 14)]
-        subsets = ["none", "all", mid]
+        # default, everything, one single feature and one "everything but one" (seed-rotated), so that code compiled only
+        # for "X without Y" is reached within four consecutive seeds; thorough runs all 16
+        single = SUBSETS[1 + (seed % 4)]
+        minus_one = SUBSETS[11 + ((seed // 4 + seed) % 4)]
+        subsets = ["none", "all", single, minus_one]
     else:
         subsets = list(SUBSETS)
     count = job["count"][0 if quick else 1]
